@@ -481,6 +481,24 @@ fn main() {
     let ra = ReqAlphabet::standard();
     if args.replay.is_some() {
         Ctx::replay_and_exit(&args, level, "E1", |ctx, case| {
+            let e = AtomicU64::new(0);
+            if let Some(sg) = case.get("single") {
+                let st = |v: &Value| -> Vec<&'static str> { v.as_array().map(|a| a.iter().map(|x| if x == "t1" { "t1" } else { "t2" }).collect()).unwrap_or_default() };
+                let t = vh::c02i::TagSetting {
+                    policy: sg["tags"]["policy"].as_u64().unwrap_or(0) as u8,
+                    allow_other: sg["tags"]["allow_other"].as_bool().unwrap_or(true),
+                    configured: st(&sg["tags"]["configured"]),
+                    endpoint_tags: st(&sg["tags"]["endpoint_tags"]),
+                    visible: sg["tags"]["visible"].as_bool().unwrap_or(true),
+                };
+                vh::c02i::check_single(ctx, sg["template"].as_str().unwrap(), sg["pi"].as_u64().unwrap() as usize, sg["qi"].as_u64().unwrap() as usize, &t, &e, &Samples::new(0));
+                return;
+            }
+            if let Some(sg) = case.get("single_after") {
+                let pre: Vec<String> = sg["preamble_put"].as_array().unwrap().iter().map(|x| x.as_str().unwrap().to_string()).collect();
+                vh::c02i::check_single_after(ctx, &pre, sg["template"].as_str().unwrap(), sg["pi"].as_u64().unwrap() as usize, sg["qi"].as_u64().unwrap() as usize, &e);
+                return;
+            }
             let specs: Vec<Spec> = case["specs"].as_array().unwrap().iter().map(Spec::from_json).collect();
             let pre = precompute(&specs, &ra);
             let set: Vec<&Pre> = pre.iter().collect();
@@ -530,6 +548,10 @@ fn main() {
         t.push("/{x}/".into());
         mk_alphabet(&t, &ranges5(), &["GET", "PUT"])
     };
+    // one path, every range: the version-overlap verdict in every registration order
+    let one_path = mk_alphabet(&["/a".to_string()], &ranges13(), &["GET"]);
+    run_layer("ranges(1 path x 13 ranges) pairs", &one_path, 2, &mut layers, &mut caps);
+    run_layer("ranges(1 path x 13 ranges) triples", &one_path, 3, &mut layers, &mut caps);
     match ctx.tier {
         Tier::Quick => {
             run_layer("singles(reduced)", &reduced, 1, &mut layers, &mut caps);
@@ -537,6 +559,7 @@ fn main() {
             run_layer("triples(16)", &triple_alphabet(16), 3, &mut layers, &mut caps);
         }
         Tier::Thorough => {
+            run_layer("ranges(1 path x 13 ranges) quads", &one_path, 4, &mut layers, &mut caps);
             run_layer("singles(full)", &full, 1, &mut layers, &mut caps);
             run_layer("pairs(reduced)", &reduced, 2, &mut layers, &mut caps);
             run_layer("triples(40)", &triple_alphabet(40), 3, &mut layers, &mut caps);
